@@ -415,7 +415,7 @@ func init() {
 		ID: "C16", Level: "exploration", Run: c16Run,
 		Shards: func(string) int { return 16 },
 		Rule: func(tier string) string {
-			return "PCO lists of 0..3 (4 thorough) units over 5 identifiers x 6 content lengths (first two positions complete, deeper positions on a stride), every content length 0..255 of one unit, the Add… constructors; UnMarshal on every byte string of length <= 6 (8 thorough) over {00,01,02,03,80,FF} and the <=2-mutation neighbourhood of a valid encoding; all 65 536 PDU session bitmaps in both directions. Oracle: serialisation = 0x80 then id/length/contents per unit; parse(serialise(l)) = l; for arbitrary bytes no panic and every parsed unit is literally in the input at the offset a straightforward reader computes; bitmap bit i <-> bit (i mod 8) of octet (i div 8)."
+			return "PCO lists of 0..3 (4 thorough) units over 5 identifiers x 6 content lengths (first two positions complete, deeper positions on a stride), every content length 0..255 of one unit, the Add… constructors; UnMarshal on every byte string of length <= 6 (8 thorough) over {00,01,02,03,80,FF} and the <=2-mutation neighbourhood of a valid encoding; all 65 536 PDU session bitmaps in both directions. Oracle: serialisation = 0x80 then id/length/contents per unit; parse(serialise(l)) = l; for arbitrary bytes no panic and every parsed unit is literally in the input at the offset a straightforward reader computes; bitmap bit i <-> bit (i mod 8) of octet (i div 8). Parser and bitmap inputs are handed over inside a guarded buffer (sub-slice with spare capacity and canaries) that must be unchanged afterwards."
 		},
 		Assumptions: []string{"a trailing unit without a complete header may be dropped silently by the parser (the property only forbids invented contents and panics)"},
 		Finish:      finishDistinct("distinct by unit list / input octets / bitmap; non-trivial = lists with at least one unit, raw inputs that reach a container header (>= 4 octets), bitmaps other than all-clear and all-set"),
